@@ -482,10 +482,10 @@ def conclude(res, proof_problems, spec_fail, corr_fail, searched):
     for s, f in seen_known.items():
         res.known("%s (%s)" % (known_sigs[s]["what"], s))
     for i, f in enumerate(new_spec[:5]):
-        res.violation("spec_%d.json" % i, dict(kind="property-violated-on-implementation", **f))
+        res.violation("spec_%d.json" % i, _with_kind("property-violated-on-implementation", f))
     if not new_spec:
         for i, c in enumerate(corr_fail[:3]):
-            res.violation("corr_%d.json" % i, dict(kind="correspondence-broken", **c), no_input=True)
+            res.violation("corr_%d.json" % i, _with_kind("correspondence-broken", c), no_input=True)
         if proof_problems:
             res.violation("proof.json", dict(kind="proof-or-translator-broken", problems=proof_problems,
                                              searched_inputs=searched), no_input=True)
@@ -493,6 +493,16 @@ def conclude(res, proof_problems, spec_fail, corr_fail, searched):
     res.coverage["spec_failures_matching_known_findings"] = len(spec_fail) - len(new_spec)
     res.coverage["disagreements_checked"] = len(corr_fail)
     return res.finish()
+
+
+def _with_kind(kind, f):
+    """replay record of a failure; a harness may use the key `kind` for its own purposes (kind of case): it is kept as `case_kind`
+    - a key clash must never turn a violation into a crash of the check"""
+    d = dict(f)
+    if "kind" in d:
+        d["case_kind"] = d.pop("kind")
+    d["kind"] = kind
+    return d
 
 
 def rng_for(seed, tag):
